@@ -163,10 +163,35 @@ def run(tier):
         add("{{ v | abs }}", {"v": v_}, None if exp is None else str(exp), "abs", {"abs": str(v_)})
     for v_, exp in ((5, "5"), ({"$i128": str(-2**127)}, str(-2**127)), ({"$u128": str(2**128 - 1)}, str(2**128 - 1)), (True, "true"), ("a", "a")):
         add("{{ v | str }}|{{ v | str is string }}", {"v": v_}, exp + "|true", "str", {"str": str(v_)})
+    # ---- built-ins keep their meaning after register_from(other) where `other` carries callables under built-in names; only
+    #      the names this instance lacks are imported (a test named like one of its FILTERS is such a name)
+    for src, exp in (("{{ 'ab' | upper }}", "AB"), ("{{ [1, 2] | length }}", "2"), ("{{ 1 is integer }},{{ 1.5 is integer }},{{ 1.5 is float }},{{ 1.5 is number }}", "true,false,true,true"),
+                     ("{{ 2 is odd }},{{ 3 is odd }},{{ 2 is even }}", "false,true,true"), ("{{ 'a' is string }},{{ 1 is string }}", "true,false"), ("{{ range(end=2) }}", "[0, 1]"),
+                     ("{{ 1 | imported_f }},{{ 1 is imported_t }},{{ imported_fn() }},{{ 1 is upper }}", "IF,true,IFN,true")):
+        jobs.append({"cfg": {"probes": True, "register_from": True}, "ctx": {}, "steps": [{"op": "render_str", "src": src, "auto": False}]})
+        meta.append((src, exp, "register_from", {"register_from": src}))
+    # ---- a built-in reached through State::call_filter from a user filter, inside included templates (one and two levels, in
+    #      a loop, under a capture): same value, same error class as at the top level
+    for fname, args, recv, exp in (("upper", {}, "ab", "AB"), ("truncate", {"length": 1, "end": "~"}, "abc", "a~"), ("length", {}, [1, 2], "2"), ("join", {"sep": "-"}, ["a", "b"], "a-b")):
+        inc = "{{ v | viacall(name='%s', args=a) }}" % fname
+        tpls = [["inc", inc], ["inc2", "{% include 'inc' %}"], ["main", inc + "|{% include 'inc' %}|{% include 'inc2' %}|{% for i in [1] %}{% include 'inc' %}{% endfor %}|{% set c %}{% include 'inc2' %}{% endset %}{{ c }}"]]
+        jobs.append({"cfg": {"probes": True}, "ctx": {"v": recv, "a": args}, "steps": [{"op": "add", "tpls": tpls}, {"op": "render", "name": "main"}]})
+        meta.append(("viacall " + fname, "|".join([exp] * 5), "via-include", {"via-include": fname}))
+    for fname, args, recv in (("truncate", {"length": "x"}, "abc"), ("upper", {}, [1]), ("nofilter", {}, "a")):
+        inc = "{{ v | errkind(name='%s', args=a) }}" % fname
+        tpls = [["inc", inc], ["main", inc + "|{% include 'inc' %}"]]
+        jobs.append({"cfg": {"probes": True}, "ctx": {"v": recv, "a": args}, "steps": [{"op": "add", "tpls": tpls}, {"op": "render", "name": "main"}]})
+        meta.append(("errkind " + fname, "SAME-BOTH", "via-include", {"via-include-err": fname}))
     res = vp.run_jobs(jobs, tag="c17", timeout=3000)
     for (src, exp, what, key), rr, job in zip(meta, res, jobs):
         C.count()
-        x = rr[0]
+        x = rr[-1] if what == "via-include" else rr[0]
+        if exp == "SAME-BOTH":
+            C.nontrivial([what, key])
+            parts = (x.get("out") or "|").split("|")
+            if not x.get("ok") or len(parts) != 2 or parts[0] != parts[1] or parts[0] == "Ok":
+                C.violation(dict(key, kind="via-include"), "%s: at the top level / inside an included template the built-in fails with %s" % (src, x.get("out") if x.get("ok") else (x.get("msg") or x.get("disp", ""))[:100]), {"job": job})
+            continue
         k = dict(key, what=what)
         if x.get("panic") or x.get("abort"):
             C.violation(dict(k, kind="panic"), "panic: %s with %s: %s" % (src, job["ctx"], x.get("msg")), {"job": job, "result": x})
